@@ -20,18 +20,19 @@ func init() {
 			"the staleness flag is `age >= lifetime` (strict freshness); current age depends on Age field, Date, request/response time and resident time, each time difference clamped at 0; " +
 			"heuristic lifetime is (Date-Last-Modified) scaled by <= 0.1 and 0 without a valid Last-Modified; delta-seconds and Age decoding saturate; " +
 			"staleness is relaxed only under a request max-stale.",
-		NotDecided: "numeric values of age and lifetime, date-parsing leniency, sums of saturated durations, anything about elapsed time.",
+		NotDecided:  "numeric values of age and lifetime, date-parsing leniency, sums of saturated durations, anything about elapsed time.",
 		Assumptions: []string{"R-REQ, R-FRESH, R-PURE (checked in C01.0)"},
 		Rules: []Rule{
 			{ID: "C01.0", Desc: "shared premises", Run: func(c *Ctx) { ruleRREQ(c, "C01.0"); ruleRFRESH(c, "C01.0"); ruleRPURE(c, "C01.0") }, MinSites: 3},
 			{ID: "C01.1", Desc: "lifetime precedence", Run: ruleC01_1, MinSites: 3},
 			{ID: "C01.2", Desc: "serve guard", Run: ruleC01_2, MinSites: 2},
 			{ID: "C01.3", Desc: "staleness test is age >= lifetime", Run: ruleC01_3, MinSites: 1},
-			{ID: "C01.4", Desc: "current age uses all RFC terms, clamped", Run: ruleC01_4, MinSites: 4},
-			{ID: "C01.5", Desc: "heuristic bound", Run: ruleC01_5, MinSites: 1},
+			{ID: "C01.4", Desc: "current age uses all RFC terms, clamped", Run: func(c *Ctx) { ruleC01_4(c); ruleResidentTime(c, "C01.4") }, MinSites: 4},
+			{ID: "C01.5", Desc: "heuristic bound and heuristic statuses", Run: func(c *Ctx) { ruleC01_5(c); ruleHeuristicStatuses(c, "C01.5") }, MinSites: 2},
 			{ID: "C01.6", Desc: "delta-seconds / Age saturation", Run: func(c *Ctx) { ruleSaturation(c, "C01.6") }, MinSites: 2},
 			{ID: "C01.7", Desc: "staleness relaxed only under request max-stale", Run: ruleC01_7, MinSites: 1},
 			{ID: "C01.8", Desc: "an unparseable Date is repaired like a missing one; synthesised Date is UTC", Run: func(c *Ctx) { ruleDateRepair(c, "C01.8") }, MinSites: 1},
+			{ID: "C01.11", Desc: "Expires-based lifetime is Expires minus Date", Run: func(c *Ctx) { ruleExpiresMinusDate(c, "C01.11") }, MinSites: 1},
 			{ID: "C01.10", Desc: "sums of ages and lifetimes saturate", Run: func(c *Ctx) { ruleDurationSums(c, "C01.10") }, MinSites: 2},
 			{ID: "C01.9", Desc: "a positive request max-age caps the lifetime on every path", Run: func(c *Ctx) { ruleRequestMaxAgeCaps(c, "C01.9") }, MinSites: 1},
 		},
@@ -144,20 +145,20 @@ func ruleC01_1(c *Ctx) {
 	// find the "Expires found" atom: bool result of the entry method that reads the Expires header
 	expiresKey := ""
 	for _, ffTree := range c.reachableFrom(ff) {
-	instrsOf(ffTree, func(in ssa.Instruction) {
-		if call, ok := in.(*ssa.Call); ok {
-			if sc := call.Call.StaticCallee(); sc != nil && c.P.IsRepoFunc(sc) && headerCallWithKey(sc, "Get", "Expires") {
-				// "found" is the first bool result
-				rs := sigResults(sc)
-				for i, r := range rs {
-					if isBoolType(r) {
-						expiresKey = fmt.Sprintf("ret:%s#%d", sc.Name(), i)
-						break
+		instrsOf(ffTree, func(in ssa.Instruction) {
+			if call, ok := in.(*ssa.Call); ok {
+				if sc := call.Call.StaticCallee(); sc != nil && c.P.IsRepoFunc(sc) && headerCallWithKey(sc, "Get", "Expires") {
+					// "found" is the first bool result
+					rs := sigResults(sc)
+					for i, r := range rs {
+						if isBoolType(r) {
+							expiresKey = fmt.Sprintf("ret:%s#%d", sc.Name(), i)
+							break
+						}
 					}
 				}
 			}
-		}
-	})
+		})
 	}
 	rows := []struct {
 		name    string
@@ -541,6 +542,72 @@ func ruleC01_4(c *Ctx) {
 		c.Fail("C01.4", "age-terms", desc, fmt.Sprintf("%s: age value does not depend on %v; e.g. without resident time every entry stays fresh forever", c.P.ShortName(ca), missing), ex...)
 	} else {
 		c.Pass("C01.4", "age-terms", desc, ex...)
+	}
+	// a valid Age field is never dropped: wherever the age term joins "no Age" (zero) and "Age given", only the
+	// decoded value survives once the decoder reported a valid value (a too-large Age is capped, not ignored)
+	var ageDecoded ssa.Value
+	instrsOf(ca, func(in ssa.Instruction) {
+		ex, ok := in.(*ssa.Extract)
+		if !ok || ex.Index != 0 {
+			return
+		}
+		call, ok := ex.Tuple.(*ssa.Call)
+		if !ok {
+			return
+		}
+		if sc := call.Call.StaticCallee(); sc != nil && c.A.RawValue[sc] && len(call.Call.Args) == 1 {
+			if c.An.dependsOnCall(call.Call.Args[0], func(cc *ssa.Call) bool {
+				if !callIsMethod(&cc.Call, "net/http", "Header", "Get") {
+					return false
+				}
+				_, a := recvAndArgs(&cc.Call)
+				s, ok := constStr(a[0])
+				return ok && s == "Age"
+			}) {
+				ageDecoded = ex
+			}
+		}
+	})
+	if ageDecoded != nil {
+		validKey := ""
+		if call, ok := ageDecoded.(*ssa.Extract).Tuple.(*ssa.Call); ok {
+			if a, _ := c.An.callAtom(call, 1); a != nil {
+				validKey = a.Key
+			}
+		}
+		prV := c.An.Prune(ca, AssumeKeys(map[string]bool{validKey: true}))
+		dropped := ""
+		nJoin := 0
+		instrsOf(ca, func(in ssa.Instruction) {
+			phi, ok := in.(*ssa.Phi)
+			if !ok || !typeIs(phi.Type(), "time", "Duration") {
+				return
+			}
+			dep := false
+			for _, e := range phi.Edges {
+				if c.An.dependsOnValue(e, ageDecoded) {
+					dep = true
+				}
+			}
+			if !dep {
+				return
+			}
+			nJoin++
+			for _, e := range prV.LivePhiEdges(phi) {
+				if !c.An.dependsOnValue(e, ageDecoded) {
+					dropped = fmt.Sprintf("%s: with a valid Age field the age term can still be `%s`", c.P.InstrPos(phi), e.String())
+				}
+			}
+		})
+		d3 := "a valid Age field always enters the current age (too-large values are capped, not dropped)"
+		switch {
+		case validKey == "":
+			c.Undecided("C01.4", "age-field-used", d3, "the decoder's validity flag is not recognised as an atom")
+		case dropped != "":
+			c.Fail("C01.4", "age-field-used", d3, dropped+". Witness: `Age: 2147483649` with a current Date and max-age=3600 is served as a fresh HIT")
+		default:
+			c.Pass("C01.4", "age-field-used", d3, fmt.Sprintf("%s: %d join(s) of the age term, only the decoded value is live under %s=T", c.P.ShortName(ca), nJoin, validKey))
+		}
 	}
 	// every time difference is clamped at 0 before use
 	nd := 0
